@@ -1,25 +1,609 @@
-//! C09 — not built yet (stub).
+//! C09 — pruned top-k (wand, bmw) equals exhaustive top-k (bm25).
+//!
+//! Finder (implementation alone): `IndexReader::search` with `execution = wand | bmw` against
+//! `execution = bm25` on the same reader: same hits, same order, same scores (rel 2e-5;
+//! neighbours with near-equal scores may swap).
+//! Correspondence: the Lean model (`SL.TK.search` fed by `SL.Bm25`/`SL.Quant`) for each of the
+//! three strategies against the implementation, plus the model-side monitors (`bounds_ok` on
+//! hook-free queries, `refines`: cursor loop = decision rule, `repaired_bmw_eq_brute`).
+use crate::idx;
 use crate::proto::Driver;
 use crate::rng::Rng;
 use crate::summary::Summary;
+use crate::util::scratch;
 use crate::{Prop, Tier};
-use serde_json::{json, Value};
+use searchlite_core::Schema;
+use serde_json::{json, Map, Value};
 
-pub struct Stub;
-pub static P: Stub = Stub;
+pub struct C09;
+pub static P: C09 = C09;
 
-impl Prop for Stub {
+pub const TEXT_FIELDS: [&str; 2] = ["body", "title"];
+const WORDS: [&str; 10] = ["ta", "tb", "tc", "td", "te", "tf", "tg", "th", "ti", "tj"];
+const TAGS: [&str; 6] = ["alpha", "Beta", "gamma", "delta", "Epsilon", "zeta"];
+
+pub fn schema_json() -> Value {
+  json!({
+    "doc_id_field": "_id",
+    "analyzers": [{"name": "ws", "tokenizer": "whitespace", "filters": []}],
+    "text_fields": [
+      {"name": "body", "analyzer": "ws", "stored": false, "indexed": true},
+      {"name": "title", "analyzer": "ws", "stored": false, "indexed": true}
+    ],
+    "keyword_fields": [{"name": "tag", "stored": false, "indexed": true, "fast": true},
+                       {"name": "cat", "stored": false, "indexed": true, "fast": true}],
+    "numeric_fields": [{"name": "n", "i64": true, "fast": true, "stored": false},
+                       {"name": "m", "i64": true, "fast": true, "stored": false},
+                       {"name": "p", "i64": false, "fast": true, "stored": false}]
+  })
+}
+
+// ---------------------------------------------------------------- shared with C10
+
+/// `[(id, score)]` of a response
+pub type Ranking = Vec<(String, f64)>;
+
+/// the comparison rule of DESIGN §3.5: same length, scores pairwise within `rel`, and within
+/// each run of near-equal scores the same set of ids (the last run may be cut by the limit, in
+/// which case its members may differ)
+pub fn same_ranking(a: &Ranking, b: &Ranking, limit: usize, rel: f64) -> bool {
+  if a.len() != b.len() {
+    return false;
+  }
+  for i in 0..a.len() {
+    if !idx::close(a[i].1, b[i].1, rel) {
+      return false;
+    }
+  }
+  let mut s = 0;
+  while s < a.len() {
+    let mut e = s + 1;
+    while e < a.len() && idx::close(a[e - 1].1, a[e].1, rel) {
+      e += 1;
+    }
+    let cut = e == a.len() && a.len() >= limit;
+    if !cut {
+      let mut x: Vec<&String> = a[s..e].iter().map(|h| &h.0).collect();
+      let mut y: Vec<&String> = b[s..e].iter().map(|h| &h.0).collect();
+      x.sort();
+      y.sort();
+      if x != y {
+        return false;
+      }
+    } else if e - s == 1 && a[s].0 != b[s].0 {
+      // a single last hit: it may only differ when another document ties with it, which we
+      // cannot see here; accept (scores are equal within tolerance)
+    }
+    s = e;
+  }
+  true
+}
+
+pub fn ranking_json(r: &Ranking) -> Value {
+  Value::Array(r.iter().map(|(i, s)| json!([i, s])).collect())
+}
+
+pub fn model_ranking(v: &Value) -> Ranking {
+  v.as_array()
+    .map(|a| a.iter().map(|h| (h["id"].as_str().unwrap_or("?").to_string(), h["score"].as_f64().unwrap_or(f64::NAN))).collect())
+    .unwrap_or_default()
+}
+
+/// analysed view of the corpus for the model: token texts from the REAL index analyzer
+pub fn analysed_segments(schema: &Schema, segments: &[Value], deletes: &[String]) -> Result<Value, String> {
+  let an = schema.build_analyzers().map_err(|e| e.to_string())?;
+  let mut out = Vec::new();
+  for seg in segments {
+    let mut docs = Vec::new();
+    for d in seg.as_array().cloned().unwrap_or_default() {
+      let id = d["_id"].as_str().unwrap_or("").to_string();
+      let mut text = Map::new();
+      for f in TEXT_FIELDS {
+        if let Some(v) = d.get(f) {
+          let a = an.index_analyzer(f).ok_or("no analyzer")?;
+          let mut toks: Vec<Value> = Vec::new();
+          let vals: Vec<String> = match v {
+            Value::String(s) => vec![s.clone()],
+            Value::Array(xs) => xs.iter().filter_map(|x| x.as_str().map(|s| s.to_string())).collect(),
+            _ => vec![],
+          };
+          for s in vals {
+            for t in a.analyze(&s) {
+              toks.push(json!(t.text));
+            }
+          }
+          text.insert(f.to_string(), Value::Array(toks));
+        }
+      }
+      let list = |v: Option<&Value>| -> Value {
+        match v {
+          None | Some(Value::Null) => json!([]),
+          Some(Value::Array(xs)) => Value::Array(xs.clone()),
+          Some(x) => json!([x]),
+        }
+      };
+      let mut kw = Map::new();
+      for f in ["tag", "cat"] {
+        if d.get(f).is_some() {
+          kw.insert(f.to_string(), list(d.get(f)));
+        }
+      }
+      let mut i64s = Map::new();
+      for f in ["n", "m"] {
+        if d.get(f).is_some() {
+          i64s.insert(f.to_string(), list(d.get(f)));
+        }
+      }
+      let mut f64s = Map::new();
+      if d.get("p").is_some() {
+        f64s.insert("p".to_string(), list(d.get("p")));
+      }
+      docs.push(json!({"id": id, "deleted": deletes.contains(&id), "text": text, "kw": kw, "i64": i64s, "f64": f64s}));
+    }
+    out.push(json!({"docs": docs}));
+  }
+  Ok(Value::Array(out))
+}
+
+/// script expression tree → (infix text for the repository, RPN for the model)
+pub fn render_expr(e: &Value, infix: &mut String, rpn: &mut Vec<Value>) {
+  if let Some(n) = e.as_f64() {
+    infix.push_str(&format!("{}", n));
+    rpn.push(json!(n));
+  } else if let Some(s) = e.as_str() {
+    infix.push_str(s);
+    rpn.push(json!(s));
+  } else if let Some(a) = e.as_array() {
+    // [op, lhs, rhs]
+    let op = a[0].as_str().unwrap_or("+");
+    infix.push('(');
+    render_expr(&a[1], infix, rpn);
+    infix.push_str(&format!(" {} ", op));
+    render_expr(&a[2], infix, rpn);
+    infix.push(')');
+    rpn.push(json!(op));
+  }
+}
+
+/// case query tree → (repository query JSON, model query JSON)
+pub fn split_query(q: &Value) -> (Value, Value) {
+  match q {
+    Value::Object(m) => {
+      let mut repo = Map::new();
+      let mut model = Map::new();
+      for (k, v) in m {
+        if k == "expr" {
+          let mut infix = String::new();
+          let mut rpn = Vec::new();
+          render_expr(v, &mut infix, &mut rpn);
+          repo.insert("script".into(), json!(infix));
+          model.insert("rpn".into(), Value::Array(rpn));
+        } else {
+          let (r, mo) = split_query(v);
+          repo.insert(k.clone(), r);
+          model.insert(k.clone(), mo);
+        }
+      }
+      (Value::Object(repo), Value::Object(model))
+    }
+    Value::Array(a) => {
+      let (r, m): (Vec<Value>, Vec<Value>) = a.iter().map(split_query).unzip();
+      (Value::Array(r), Value::Array(m))
+    }
+    x => (x.clone(), x.clone()),
+  }
+}
+
+pub fn has_hook(q: &Value) -> bool {
+  match q {
+    Value::Object(m) => {
+      matches!(m.get("type").and_then(|t| t.as_str()), Some("function_score") | Some("script_score") | Some("rank_feature"))
+        || m.values().any(has_hook)
+    }
+    Value::Array(a) => a.iter().any(has_hook),
+    _ => false,
+  }
+}
+
+/// build the index of a case (one commit per segment, then the deletes)
+pub fn build_index(dir: &std::path::Path, segments: &[Value], deletes: &[String]) -> Result<searchlite_core::api::Index, String> {
+  let index = idx::create(dir, &schema_json(), true)?;
+  for seg in segments {
+    let docs = seg.as_array().cloned().unwrap_or_default();
+    idx::add_commit(&index, &docs)?;
+  }
+  if !deletes.is_empty() {
+    idx::delete_commit(&index, deletes)?;
+  }
+  Ok(index)
+}
+
+// ---------------------------------------------------------------- generators
+
+fn heavy_tf(rng: &mut Rng) -> usize {
+  // heavy-tailed term frequency: 1 mostly, sometimes large
+  match rng.below(10) {
+    0 => 4 + rng.below(12),
+    1 | 2 => 2 + rng.below(3),
+    _ => 1,
+  }
+}
+
+pub fn gen_doc(rng: &mut Rng, id: String, vocab: usize, dense: bool) -> Value {
+  let mut body: Vec<&str> = Vec::new();
+  for w in 0..vocab {
+    let present = if dense { w < 2 && rng.chance(9, 10) || rng.chance(1, 4) } else { rng.chance(3, 5) };
+    if present {
+      for _ in 0..heavy_tf(rng) {
+        body.push(WORDS[w]);
+      }
+    }
+  }
+  // filler tokens change the document length
+  for _ in 0..rng.below(6) {
+    body.push("zz");
+  }
+  rng.shuffle(&mut body);
+  let mut d = Map::new();
+  d.insert("_id".into(), json!(id));
+  d.insert("body".into(), json!(body.join(" ")));
+  if rng.chance(1, 2) {
+    let n = 1 + rng.below(3);
+    let t: Vec<&str> = (0..n).map(|_| WORDS[rng.below(vocab)]).collect();
+    d.insert("title".into(), json!(t.join(" ")));
+  }
+  if rng.chance(4, 5) {
+    d.insert("n".into(), json!(rng.below(60) as i64));
+  }
+  if rng.chance(4, 5) {
+    d.insert("p".into(), json!((rng.below(400) as f64) / 8.0));
+  }
+  if rng.chance(1, 2) {
+    d.insert("tag".into(), json!(TAGS[rng.below(TAGS.len())]));
+  }
+  Value::Object(d)
+}
+
+fn boost(rng: &mut Rng) -> Option<f64> {
+  match rng.below(4) {
+    0 => Some(2.0),
+    1 => Some(0.5),
+    _ => None,
+  }
+}
+
+fn with_boost(mut v: Value, b: Option<f64>) -> Value {
+  if let Some(b) = b {
+    v["boost"] = json!(b);
+  }
+  v
+}
+
+fn term_q(rng: &mut Rng, w: &str, boosted: bool) -> Value {
+  let f = if rng.chance(1, 5) { "title" } else { "body" };
+  with_boost(json!({"type": "term", "field": f, "value": w}), if boosted { boost(rng) } else { None })
+}
+
+/// a hook-free scored query over distinct words
+fn plain_q(rng: &mut Rng, vocab: usize, boosted: bool, dis_max: bool) -> Value {
+  let mut ws: Vec<&str> = WORDS[..vocab].to_vec();
+  rng.shuffle(&mut ws);
+  let n = (if rng.chance(1, 6) { 1 } else { 2 + rng.below(2) }).min(ws.len());
+  if dis_max {
+    let kids: Vec<Value> = ws[..n].iter().map(|w| term_q(rng, w, true)).collect();
+    let tie = *rng.pick(&[0.0, 0.3, 1.0]);
+    return with_boost(json!({"type": "dis_max", "queries": kids, "tie_breaker": tie}), boost(rng));
+  }
+  match rng.below(3) {
+    0 if !boosted => json!({"type": "query_string", "query": ws[..n].join(" ")}),
+    0 => {
+      let fields = if rng.chance(1, 2) { json!([{"field": "body", "boost": 2.0}, {"field": "title"}]) } else { json!(["body"]) };
+      with_boost(json!({"type": "query_string", "query": ws[..n].join(" "), "fields": fields}), boost(rng))
+    }
+    1 => {
+      let kids: Vec<Value> = ws[..n].iter().map(|w| term_q(rng, w, boosted)).collect();
+      with_boost(json!({"type": "bool", "should": kids}), if boosted { boost(rng) } else { None })
+    }
+    _ => {
+      // must + should (+ must_not on a further word)
+      let must = vec![term_q(rng, ws[0], boosted)];
+      let should: Vec<Value> = ws[1..n].iter().map(|w| term_q(rng, w, boosted)).collect();
+      let mut q = json!({"type": "bool", "must": must, "should": should});
+      if ws.len() > n && rng.chance(1, 3) {
+        q["must_not"] = json!([{"type": "term", "field": "body", "value": ws[n]}]);
+      }
+      q
+    }
+  }
+}
+
+fn gen_expr(rng: &mut Rng, depth: usize) -> Value {
+  if depth == 0 || rng.chance(1, 3) {
+    return match rng.below(4) {
+      0 => json!("_score"),
+      1 => json!("n"),
+      2 => json!("p"),
+      _ => json!(*rng.pick(&[0.5, 1.0, 2.0, 3.0])),
+    };
+  }
+  let op = *rng.pick(&["+", "*"]);
+  json!([op, gen_expr(rng, depth - 1), gen_expr(rng, depth - 1)])
+}
+
+fn hook_q(rng: &mut Rng, kind: &str, vocab: usize) -> Value {
+  let boosted = rng.chance(1, 2);
+  let inner = plain_q(rng, vocab, boosted, false);
+  match kind {
+    "function_score" => {
+      let mut fns = Vec::new();
+      let nf = 1 + rng.below(2);
+      for _ in 0..nf {
+        if rng.chance(3, 4) {
+          let mut f = json!({"type": "field_value_factor", "field": *rng.pick(&["n", "p"]), "factor": *rng.pick(&[1.0, 0.5, 2.0])});
+          if rng.chance(1, 2) {
+            f["modifier"] = json!(*rng.pick(&["none", "log1p", "sqrt", "log2p"]));
+          }
+          if rng.chance(1, 2) {
+            f["missing"] = json!(1.0);
+          }
+          fns.push(f);
+        } else {
+          fns.push(json!({"type": "weight", "weight": *rng.pick(&[0.5, 1.5, 3.0])}));
+        }
+      }
+      let mut q = json!({"type": "function_score", "query": inner, "functions": fns});
+      if rng.chance(1, 2) {
+        q["boost_mode"] = json!(*rng.pick(&["multiply", "sum", "replace", "max", "min"]));
+      }
+      if rng.chance(1, 3) {
+        q["score_mode"] = json!(*rng.pick(&["sum", "multiply", "max", "min", "avg"]));
+      }
+      if rng.chance(1, 5) {
+        q["max_boost"] = json!(20.0);
+      }
+      if rng.chance(1, 6) {
+        q["min_score"] = json!(0.5);
+      }
+      with_boost(q, boost(rng))
+    }
+    "script_score" => {
+      let e = json!(["*", "_score", gen_expr(rng, 2)]);
+      let e = if rng.chance(1, 2) { e } else { json!(["+", e, gen_expr(rng, 1)]) };
+      with_boost(json!({"type": "script_score", "query": inner, "expr": e}), boost(rng))
+    }
+    _ => {
+      // rank_feature next to scored terms
+      let mut rf = json!({"type": "rank_feature", "field": *rng.pick(&["n", "p"])});
+      if rng.chance(1, 2) {
+        rf["modifier"] = json!(*rng.pick(&["log1p", "sqrt", "none"]));
+      }
+      if rng.chance(1, 2) {
+        rf["missing"] = json!(0.5);
+      }
+      let rf = with_boost(rf, boost(rng));
+      json!({"type": "bool", "should": [inner, rf]})
+    }
+  }
+}
+
+pub const KINDS: [&str; 6] = ["plain", "boosted", "dis_max", "function_score", "script_score", "rank_feature"];
+
+fn observed(imp: &[(&str, Option<Ranking>)]) -> Value {
+  let mut m = Map::new();
+  for (k, r) in imp {
+    m.insert(k.to_string(), r.as_ref().map(ranking_json).unwrap_or(Value::Null));
+  }
+  Value::Object(m)
+}
+
+impl Prop for C09 {
   fn id(&self) -> &'static str {
     "C09"
   }
   fn rule(&self) -> &'static str {
-    "stub"
+    "case = (1-3 segments of random documents over a 3-8 word vocabulary with heavy-tailed term frequencies, optional deletes, one scored query of kind plain|boosted|dis_max|function_score|script_score|rank_feature, limit 1..50, bmw_block_size 1..300 or default); size classes tiny (8-60 docs, block size 1-3, limit 1-5), medium (60-250 docs), long (posting lists of 400-1200 entries); every case runs execution=bm25, wand and bmw on one reader; non-trivial = some segment has more accepted candidates than limit+1 (the heap fills and pruning decisions are taken); distinct = distinct case JSON"
   }
-  fn count(&self, _tier: Tier) -> usize {
-    0
+  fn count(&self, tier: Tier) -> usize {
+    tier.pick(300, 20000)
   }
-  fn gen(&self, _rng: &mut Rng, _tier: Tier, _i: usize) -> Value {
-    json!(null)
+  fn gen(&self, rng: &mut Rng, _tier: Tier, i: usize) -> Value {
+    let class = match i % 10 {
+      0 => "long",
+      1 | 2 | 3 => "medium",
+      _ => "tiny",
+    };
+    let kind = KINDS[(i / 2) % KINDS.len()];
+    let (nseg, ndocs, vocab) = match class {
+      "long" => (1 + rng.below(2), 400 + rng.below(801), 4 + rng.below(3)),
+      "medium" => (1 + rng.below(3), 60 + rng.below(190), 4 + rng.below(5)),
+      _ => (1 + rng.below(2), 8 + rng.below(53), 3 + rng.below(3)),
+    };
+    let mut segments = Vec::new();
+    let mut ids = Vec::new();
+    for s in 0..nseg {
+      let n = if s + 1 == nseg { ndocs - (ndocs / nseg) * s } else { ndocs / nseg };
+      let mut docs = Vec::new();
+      for d in 0..n.max(1) {
+        let id = format!("s{s}d{d:04}");
+        ids.push(id.clone());
+        docs.push(gen_doc(rng, id, vocab, class == "long"));
+      }
+      segments.push(Value::Array(docs));
+    }
+    let mut deletes: Vec<String> = Vec::new();
+    if rng.chance(1, 4) {
+      let nd = 1 + rng.below((ids.len() / 6).max(1));
+      for _ in 0..nd {
+        let id = rng.pick(&ids).clone();
+        if !deletes.contains(&id) {
+          deletes.push(id);
+        }
+      }
+    }
+    let query = match kind {
+      "plain" => plain_q(rng, vocab, false, false),
+      "boosted" => plain_q(rng, vocab, true, false),
+      "dis_max" => plain_q(rng, vocab, true, true),
+      k => hook_q(rng, k, vocab),
+    };
+    let (limit, bs) = match class {
+      "tiny" => (*rng.pick(&[1, 1, 2, 2, 3, 4, 5]), json!(1 + rng.below(3))),
+      _ => (1 + rng.below(50), if rng.chance(1, 6) { Value::Null } else { json!(1 + rng.below(300)) }),
+    };
+    json!({"class": class, "kind": kind, "segments": segments, "deletes": deletes, "query": query, "limit": limit, "bmw_block_size": bs})
   }
-  fn run_case(&self, _drv: &mut Driver, _case: &Value, _s: &mut Summary) {}
+
+  fn run_case(&self, drv: &mut Driver, case: &Value, s: &mut Summary) {
+    let segments = case["segments"].as_array().cloned().unwrap_or_default();
+    let deletes: Vec<String> = case["deletes"].as_array().map(|a| a.iter().filter_map(|x| x.as_str().map(|s| s.to_string())).collect()).unwrap_or_default();
+    let limit = case["limit"].as_u64().unwrap_or(5) as usize;
+    let bs = case["bmw_block_size"].clone();
+    let (repo_q, model_q) = split_query(&case["query"]);
+    let hook = has_hook(&case["query"]);
+    let dir = scratch();
+    let index = match build_index(dir.path(), &segments, &deletes) {
+      Ok(i) => i,
+      Err(e) => {
+        s.case(case, false);
+        s.disagree("setup", case, json!({"error": e}), json!(null));
+        return;
+      }
+    };
+    let reader = match index.reader() {
+      Ok(r) => r,
+      Err(e) => {
+        s.case(case, false);
+        s.disagree("setup", case, json!({"error": e.to_string()}), json!(null));
+        return;
+      }
+    };
+    s.count(&format!("kind.{}", case["kind"].as_str().unwrap_or("?")));
+    s.count(&format!("class.{}", case["class"].as_str().unwrap_or("?")));
+    if !deletes.is_empty() {
+      s.count("with_deletes");
+    }
+    // ---- run the implementation three times
+    let mut imp: Vec<(&str, Option<Ranking>)> = Vec::new();
+    let mut errs = Vec::new();
+    for ex in ["bm25", "wand", "bmw"] {
+      let mut req = json!({"query": repo_q, "limit": limit, "execution": ex, "return_stored": false});
+      if !bs.is_null() {
+        req["bmw_block_size"] = bs.clone();
+      }
+      match idx::search(&reader, &req) {
+        idx::Outcome::Ok(v) => imp.push((ex, Some(idx::hit_scores(&v)))),
+        o => {
+          errs.push(json!({"execution": ex, "outcome": o.to_json()}));
+          imp.push((ex, None));
+        }
+      }
+    }
+    if !errs.is_empty() {
+      s.case(case, false);
+      // an error/panic on a well-formed request of the modelled fragment: the strategies cannot agree
+      s.fail("search.error", "search returned an error or panicked for some execution strategy", case, json!(errs));
+      return;
+    }
+    let get = |k: &str| imp.iter().find(|(e, _)| *e == k).and_then(|(_, r)| r.clone()).unwrap_or_default();
+    let (b, w, m) = (get("bm25"), get("wand"), get("bmw"));
+
+    // ---- model
+    let schema = idx::schema(&schema_json()).unwrap();
+    let model = match analysed_segments(&schema, &segments, &deletes) {
+      Ok(segs) => drv.call(
+        "C09",
+        json!({"op": "search", "k1": 1.2, "b": 0.75, "text_fields": TEXT_FIELDS, "segments": segs, "query": model_q, "limit": limit, "bmw_block_size": bs}),
+      ),
+      Err(e) => json!({"ok": false, "error": e}),
+    };
+    let nontrivial = model["candidates"].as_u64().unwrap_or(0) as usize > limit + 1 && b.len() >= limit.min(2);
+    s.case(case, nontrivial);
+    if model["max_postings"].as_u64().unwrap_or(0) >= 400 {
+      s.count("posting_list_ge_400");
+    }
+    s.count(&format!("limit.{}", if limit <= 5 { "1-5" } else if limit <= 20 { "6-20" } else { "21-50" }));
+    s.count(&format!("block.{}", match bs.as_u64() { None => "default", Some(x) if x <= 3 => "1-3", Some(x) if x <= 32 => "4-32", _ => "33-300" }));
+
+    // ---- finder: implementation against itself.  The property failure is established on the
+    // implementation alone (wand/bmw vs bm25).  The *signature* additionally says whether the
+    // wrong result is the one the recorded defect mechanism produces (the mechanism model returns
+    // the same wrong hits): only then does it match a known finding; any other wrong result of
+    // the same strategy is a different violation.
+    let wand_ok = same_ranking(&w, &b, limit, 2e-5);
+    let bmw_ok = same_ranking(&m, &b, limit, 2e-5);
+    if !wand_ok || !bmw_ok {
+      let obs = observed(&imp);
+      let model_ok = model["ok"] == json!(true) && model["negative"] != json!(true);
+      let explained = |ex: &str, r: &Ranking| -> bool {
+        model_ok
+          && (same_ranking(&model_ranking(&model[ex]), r, limit, 2e-5)
+            || model[if ex == "wand" { "knife_wand" } else { "knife_bmw" }] == json!(true))
+      };
+      let all_explained = (wand_ok || explained("wand", &w)) && (bmw_ok || explained("bmw", &m));
+      if hook && all_explained {
+        s.fail("prune.score-hook", "wand/bmw differ from bm25 for a query whose score is changed by function_score/script_score/rank_feature (pruning uses BM25 bounds although a score hook is active)", case, obs);
+      } else if hook {
+        s.fail("prune.score-hook.unexplained", "wand/bmw differ from bm25 for a query with a score hook, and not in the way the recorded defect (BM25 bounds under a score hook) predicts", case, obs);
+      } else if wand_ok && !bmw_ok && all_explained {
+        s.fail("bmw.block-bound", "bmw differs from bm25 on a hook-free query while wand agrees (bound of the cursor's block is not a bound for later blocks)", case, obs);
+      } else if wand_ok && !bmw_ok {
+        s.fail("bmw.differs.unexplained", "bmw differs from bm25 on a hook-free query while wand agrees, and not in the way the recorded block-bound defect predicts", case, obs);
+      } else {
+        s.fail("wand.differs", "wand differs from bm25 on a hook-free query", case, obs);
+      }
+    }
+
+    // ---- correspondence: model vs implementation, per strategy
+    if model["ok"] != json!(true) {
+      s.disagree("model.error", case, observed(&imp), model);
+      return;
+    }
+    if model["negative"] == json!(true) {
+      s.count("negative_scores_not_compared");
+      return;
+    }
+    if model["hook"].as_bool() != Some(hook) {
+      s.disagree("hook.flag", case, json!(hook), model["hook"].clone());
+    }
+    if !hook && model["bounds_ok"] != json!(true) {
+      s.disagree("monitor.bounds_ok", case, json!("hook-free query"), json!({"bounds_ok": model["bounds_ok"]}));
+    }
+    if model["valid_bounds"] != json!(true) || model["wf"] != json!(true) {
+      s.disagree("monitor.valid_bounds", case, json!(null), json!({"valid_bounds": model["valid_bounds"], "wf": model["wf"]}));
+    }
+    if model["refines"] != json!(true) {
+      s.disagree("monitor.wandLoop_eq_wandRule", case, json!(null), json!({"refines": model["refines"]}));
+    }
+    if model["block_bounds_ok"] == json!(true) && model["repaired_bmw_eq_brute"] != json!(true) {
+      s.disagree("monitor.repaired_bmw", case, json!(null), json!({"repaired_bmw_eq_brute": false}));
+    }
+    if model["bounds_ok"] == json!(true) {
+      s.count("bounds_ok");
+    }
+    for (ex, r) in [("bm25", &b), ("wand", &w), ("bmw", &m)] {
+      let mr = model_ranking(&model[ex]);
+      if same_ranking(&mr, r, limit, 2e-5) {
+        continue;
+      }
+      let knife = match ex {
+        "wand" => model["knife_wand"] == json!(true),
+        "bmw" => model["knife_bmw"] == json!(true),
+        _ => false,
+      };
+      if knife {
+        s.count("knife_edge_not_compared");
+        continue;
+      }
+      s.disagree(&format!("topk.{ex}"), case, ranking_json(r), ranking_json(&mr));
+    }
+    if !same_ranking(&model_ranking(&model["wand"]), &model_ranking(&model["bm25"]), limit, 2e-5) {
+      s.count("model.wand_ne_bm25");
+    }
+    if !same_ranking(&model_ranking(&model["bmw"]), &model_ranking(&model["bm25"]), limit, 2e-5) {
+      s.count("model.bmw_ne_bm25");
+    }
+  }
+  fn finish(&self, _tier: Tier, s: &mut Summary) {
+    s.notes.push("finder compares execution=wand|bmw with execution=bm25 on the same reader; correspondence compares each strategy with the Lean model (SL.TK.search) and checks the monitors bounds_ok / refines / repaired_bmw".into());
+  }
 }
